@@ -23,6 +23,20 @@ PROPS = {
             "quick: all histories of <= 5 inserts/removes over the chain . a. b.a. c.b.a. and <= 4 over the tree a. b.a. c.a. d.b.a.; thorough: <= 5 over both",
         ],
     },
+    "C31": {
+        "groups": ["reload"],
+        "design_ref": "§6 C31 — reload",
+        "technique": "Lean 4 proof: load_impl/check_mtime on the C22 catalog model refines a per-zone rule folded over each zone's own view of the history (every history of configuration + file-state steps incl. configuration errors; independence of zones as a theorem); model tied to src/bin/quandaryd/zones.rs + config.rs by running the real load/reload in-process on scratch directories with explicit mtimes",
+        "assumptions": [
+            "file system and zone-file parser/validator are abstracted: a file has a modification time (or cannot be stat'ed) and, for a given zone configuration, either loads to some data or fails",
+            "'unchanged on disk' is the daemon's criterion (same path, mtime not newer than recorded); the executable oracle constrains only histories satisfying MtimeSound (a file that is not newer still has the loaded content), cf. theorem C31_rule_text",
+            "signal delivery, the RwLock swap of the served catalog (C32) and UDP transport are outside this property's model; run.rs's reload path is mirrored by three lines in harness/src/g_reload.rs",
+        ],
+        "evidence_notes": [
+            "one case = one whole history of (configuration, files) steps; after each step every zone configured anywhere in the history is observed by exact get and by longest-match lookup of a name below it; data identified by SOA serial",
+            "duplicate zone entries are rejected by config.rs (configuration error: catalog unchanged); generated and checked",
+        ],
+    },
 }
 
 TRUSTED_BASE = [
